@@ -1064,7 +1064,13 @@ public:
 
   bool is_bottom() const override { return m_product.is_bottom(); }
 
-  bool is_top() const override { return m_product.is_top(); }
+  bool is_top() const override {
+    // If a constraint or a Boolean is remembered for some Boolean
+    // variable then the abstract state is not top: it relates that
+    // variable with other variables.
+    return m_product.is_top() && m_bool_to_lincsts.is_top() &&
+           m_bool_to_refcsts.is_top() && m_bool_to_bools.is_top();
+  }
 
   bool_domain_t &first() { return m_product.first(); }
 
